@@ -101,7 +101,7 @@ type readRec struct {
 
 type result struct {
 	Req     rangeReq  `json:"req"`
-	Status  string    `json:"status"`   // ok | oor | err
+	Status  string    `json:"status"`   // ok | oor | err | panic
 	GotLen  int       `json:"got_len"`
 	RefOOR  bool      `json:"ref_oor"`  // harness reference: range unsatisfiable
 	RefOff  uint64    `json:"ref_off"`
@@ -121,6 +121,7 @@ type gcase struct {
 	K       int      `json:"k"`
 	M       int      `json:"m"`
 	Missing []int    `json:"missing"`
+	Flaky   [][2]int `json:"flaky"` // EC: (part, n) — range streams of the part break after n bytes
 	Results []result `json:"results"`
 }
 
@@ -230,6 +231,18 @@ func (e *env) run(r rangeReq, payload []byte) result {
 	addr := oid.NewAddress(e.cnrID, e.parent)
 	cp := new(util.CommonPrm).WithLocalOnly(e.local)
 	var err error
+	panicked := false
+	call := func(f func() error) {
+		// a panic inside the service is a verdict about the code under test (status "panic"),
+		// not a failure of the harness
+		defer func() {
+			if p := recover(); p != nil {
+				panicked = true
+				fmt.Fprintln(os.Stderr, "service panicked:", p)
+			}
+		}()
+		err = f()
+	}
 	if r.API == "getrange" {
 		var prm getsvc.RangePrm
 		prm.SetChunkWriter(w)
@@ -240,7 +253,7 @@ func (e *env) run(r rangeReq, payload []byte) result {
 		rng.SetOffset(r.First)
 		rng.SetLength(r.Second)
 		prm.SetRange(rng)
-		err = e.svc.GetRange(context.Background(), prm)
+		call(func() error { return e.svc.GetRange(context.Background(), prm) })
 	} else {
 		var prm getsvc.Prm
 		prm.SetObjectWriter(w)
@@ -260,10 +273,12 @@ func (e *env) run(r rangeReq, payload []byte) result {
 		case 4:
 			prm.SetRangeSuffix(r.First)
 		}
-		err = e.svc.Get(context.Background(), prm)
+		call(func() error { return e.svc.Get(context.Background(), prm) })
 	}
 	res := result{Req: r, GotLen: w.buf.Len(), Reads: []readRec{}}
 	switch {
+	case panicked:
+		res.Status = "panic"
 	case err == nil:
 		res.Status = "ok"
 	case errors.Is(err, apistatus.ErrObjectOutOfRange):
@@ -457,10 +472,67 @@ func ecContainer(rule iec.Rule) container.Container {
 	return c
 }
 
+// ecObject stores the EC parts of payload under rule (parts in missing removed, parts in
+// flaky breaking their range streams) behind a fresh service instance.
+func ecObject(signer user.Signer, key *ecdsa.PrivateKey, rule iec.Rule, payload []byte, miss []int, flaky [][2]int) (*env, gcase, []uint64) {
+	pk := []byte("local-node")
+	k, m, ln := int(rule.DataPartNum), int(rule.ParityPartNum), len(payload)
+	cnrID := cidtest.ID()
+	var parent object.Object
+	parent.SetContainerID(cnrID)
+	parent.SetOwner(signer.UserID())
+	parent.SetPayloadSize(uint64(ln))
+	parent.SetType(object.TypeRegular)
+	if err := parent.CalculateAndSetID(); err != nil {
+		panic(err)
+	}
+	parentID := parent.GetID()
+	parts, _, err := iec.Encode(rule, slices.Clone(payload))
+	if err != nil {
+		panic(err)
+	}
+	st := getsvc.VerifNewStore()
+	st.ECParts[parentID] = map[[2]int]*object.Object{}
+	st.Flaky[parentID] = map[[2]int]int{}
+	for i := range parts {
+		if slices.Contains(miss, i) {
+			continue
+		}
+		po, err := iec.FormObjectForECPart(signer, parent, parts[i], iec.PartInfo{RuleIndex: 0, Index: i})
+		if err != nil {
+			panic(err)
+		}
+		st.ECParts[parentID][[2]int{0, i}] = &po
+	}
+	for _, f := range flaky {
+		st.Flaky[parentID][[2]int{0, f[0]}] = f[1]
+	}
+	net := &fakeNet{nodes: [][]netmap.NodeInfo{nodes(k+m, pk)}, ec: []iec.Rule{rule}, localPK: pk}
+	e := &env{st: st, svc: getsvc.VerifNewService(st, net, key), cnrID: cnrID, cnr: ecContainer(rule), local: false,
+		idx: map[oid.ID]int{}, parent: parentID}
+	per := 0
+	if ln > 0 {
+		per = (ln + k - 1) / k
+	}
+	var bounds []uint64
+	sizes := make([]int, k)
+	for i := range sizes {
+		sizes[i] = per
+		bounds = append(bounds, uint64((i+1)*per))
+	}
+	c := gcase{Kind: "ec", Len: ln, K: k, M: m, Sizes: sizes, Missing: miss, Flaky: flaky}
+	if c.Missing == nil {
+		c.Missing = []int{}
+	}
+	if c.Flaky == nil {
+		c.Flaky = [][2]int{}
+	}
+	return e, c, bounds
+}
+
 func ecCases(rnd *rand.Rand, enc *json.Encoder, nObjects, nRanges int, maxLen int) {
 	signer := usertest.User()
 	key := neofscryptotest.ECDSAPrivateKey()
-	pk := []byte("local-node")
 	for oi := range nObjects {
 		k := 1 + rnd.Intn(6)
 		m := 1 + rnd.Intn(3)
@@ -478,55 +550,105 @@ func ecCases(rnd *rand.Rand, enc *json.Encoder, nObjects, nRanges int, maxLen in
 		}
 		payload := make([]byte, ln)
 		rnd.Read(payload)
-		cnrID := cidtest.ID()
-		var parent object.Object
-		parent.SetContainerID(cnrID)
-		parent.SetOwner(signer.UserID())
-		parent.SetPayloadSize(uint64(ln))
-		parent.SetType(object.TypeRegular)
-		if err := parent.CalculateAndSetID(); err != nil {
-			panic(err)
-		}
-		parentID := parent.GetID()
-		parts, _, err := iec.Encode(rule, slices.Clone(payload))
-		if err != nil {
-			panic(err)
-		}
 		miss := rnd.Perm(k + m)[:rnd.Intn(m+1)]
 		sort.Ints(miss)
-		st := getsvc.VerifNewStore()
-		st.ECParts[parentID] = map[[2]int]*object.Object{}
-		for i := range parts {
-			if slices.Contains(miss, i) {
-				continue
-			}
-			po, err := iec.FormObjectForECPart(signer, parent, parts[i], iec.PartInfo{RuleIndex: 0, Index: i})
-			if err != nil {
-				panic(err)
-			}
-			st.ECParts[parentID][[2]int{0, i}] = &po
-		}
-		net := &fakeNet{nodes: [][]netmap.NodeInfo{nodes(k+m, pk)}, ec: []iec.Rule{rule}, localPK: pk}
-		e := &env{st: st, svc: getsvc.VerifNewService(st, net, &key), cnrID: cnrID, cnr: ecContainer(rule), local: false,
-			idx: map[oid.ID]int{}, parent: parentID}
-		per := 0
-		if ln > 0 {
-			per = (ln + k - 1) / k
-		}
-		var bounds []uint64
-		sizes := make([]int, k)
-		for i := range sizes {
-			sizes[i] = per
-			bounds = append(bounds, uint64((i+1)*per))
-		}
-		c := gcase{Kind: "ec", Len: ln, K: k, M: m, Sizes: sizes, Missing: miss}
-		if c.Missing == nil {
-			c.Missing = []int{}
-		}
+		e, c, bounds := ecObject(signer, &key, rule, payload, miss, nil)
 		for _, r := range genRanges(rnd, uint64(ln), bounds, nRanges) {
 			c.Results = append(c.Results, e.run(r, payload))
 		}
 		_ = enc.Encode(c)
+	}
+}
+
+// ecRecoveryCases drives the recovery branch of ranged EC reads systematically: for every rule,
+// every way of losing one part (removed, or its range stream breaking after n bytes) and a few
+// ways of losing two, every pair (first data part, last data part) of a range is requested with
+// the start strictly inside the first part (so that the intra-part offset of the first part and
+// the offset at which a recovered later part continues differ), next to aligned / one-part controls.
+func ecRecoveryCases(rnd *rand.Rand, enc *json.Encoder, rules [][2]int, allStarts bool) {
+	signer := usertest.User()
+	key := neofscryptotest.ECDSAPrivateKey()
+	for ri, km := range rules {
+		k, m := km[0], km[1]
+		rule := iec.Rule{DataPartNum: uint8(k), ParityPartNum: uint8(m)}
+		per := 8 + rnd.Intn(120)
+		pad := 0 // bytes of padding in the last data part
+		if ri%2 == 1 && k > 1 {
+			pad = 1 + rnd.Intn(k-1)
+		}
+		ln := k*per - pad
+		payload := make([]byte, ln)
+		rnd.Read(payload)
+
+		type loss struct {
+			miss  []int
+			flaky [][2]int
+		}
+		var losses []loss
+		for j := range k + m { // one part removed: every data part, every parity part
+			losses = append(losses, loss{miss: []int{j}})
+		}
+		for j := range k { // one data part whose range stream breaks: at once, after 1 byte, in the middle
+			n := []int{0, 1, 1 + rnd.Intn(per-1)}[rnd.Intn(3)]
+			losses = append(losses, loss{flaky: [][2]int{{j, n}}})
+		}
+		if m >= 2 { // two parts lost: data+data, data+parity, removed+flaky
+			a := rnd.Intn(k)
+			b := (a + 1 + rnd.Intn(k-1)) % k
+			losses = append(losses, loss{miss: []int{min(a, b), max(a, b)}})
+			losses = append(losses, loss{miss: []int{rnd.Intn(k), k + rnd.Intn(m)}})
+			losses = append(losses, loss{miss: []int{a}, flaky: [][2]int{{b, rnd.Intn(per)}}})
+		}
+		for _, l := range losses {
+			e, c, _ := ecObject(signer, &key, rule, payload, l.miss, l.flaky)
+			reqs := []rangeReq{{API: "get", Mode: 0}}
+			add := func(off, end uint64) { // bytes [off, end)
+				switch rnd.Intn(4) {
+				case 0:
+					reqs = append(reqs, rangeReq{API: "get", Mode: 1, First: off, Second: end - off})
+				case 1:
+					reqs = append(reqs, rangeReq{API: "get", Mode: 2, First: off, Second: end - 1})
+				default:
+					reqs = append(reqs, rangeReq{API: "getrange", Mode: 1, First: off, Second: end - off})
+				}
+			}
+			partEnd := func(b int) int { return min((b+1)*per, ln) }
+			for a := range k {
+				for b := a; b < k; b++ {
+					starts := []int{1, per / 2, per - 1}
+					if !allStarts {
+						starts = []int{starts[rnd.Intn(3)]}
+					}
+					for _, d := range starts {
+						if b == k-1 && a*per+d >= ln {
+							continue
+						}
+						if a == b { // control: range inside one part
+							end := a*per + d + 1 + rnd.Intn(partEnd(a)-a*per-d)
+							add(uint64(a*per+d), uint64(end))
+							continue
+						}
+						// start strictly inside part a, end inside part b or at its end
+						end := partEnd(b)
+						if rnd.Intn(2) == 0 {
+							end = b*per + 1 + rnd.Intn(end-b*per)
+						}
+						add(uint64(a*per+d), uint64(end))
+					}
+					if a < b && rnd.Intn(3) == 0 { // control: start aligned to a part boundary
+						add(uint64(a*per), uint64(b*per+1+rnd.Intn(partEnd(b)-b*per)))
+					}
+				}
+			}
+			if ln-per > 0 {
+				reqs = append(reqs, rangeReq{API: "get", Mode: 3, First: uint64(1 + rnd.Intn(per-1))}) // from inside part 0 to the end
+				reqs = append(reqs, rangeReq{API: "get", Mode: 4, First: uint64(ln - 1 - rnd.Intn(per-1))})
+			}
+			for _, r := range reqs {
+				c.Results = append(c.Results, e.run(r, payload))
+			}
+			_ = enc.Encode(c)
+		}
 	}
 }
 
@@ -548,9 +670,11 @@ func main() {
 		if thorough {
 			splitCases(rnd, enc, 60, 40, 65536)
 			ecCases(rnd, enc, 150, 40, 16384)
+			ecRecoveryCases(rnd, enc, [][2]int{{2, 1}, {3, 2}, {4, 2}, {5, 2}, {5, 3}, {3, 1}, {2, 2}, {6, 3}, {4, 1}, {3, 3}, {8, 3}}, true)
 		} else {
 			splitCases(rnd, enc, 10, 16, 32768)
 			ecCases(rnd, enc, 30, 16, 4096)
+			ecRecoveryCases(rnd, enc, [][2]int{{2, 1}, {3, 2}, {4, 2}}, false)
 		}
 	default:
 		fmt.Fprintln(os.Stderr, "unknown command")
